@@ -38,9 +38,11 @@ func init() {
 		Findings: map[string]func(v *mon.Violation) bool{
 			// the three documented / observed limits of the streaming matcher partition the violations by the
 			// fragment kinds the targets use: slice first, then negative index, then trailing filter
-			"matchSliceTarget":    func(v *mon.Violation) bool { return has(v, "slice") },
-			"matchNegativeIndex":  func(v *mon.Violation) bool { return !has(v, "slice") && has(v, "negnth") },
-			"matchTrailingFilter": func(v *mon.Violation) bool { return !has(v, "slice") && !has(v, "negnth") && has(v, "filter") },
+			// (only the callback sequence is excused, and never a missing hit of a target that has none of
+			// these fragments: that is reported under its own kind)
+			"matchSliceTarget":    func(v *mon.Violation) bool { return seq(v) && has(v, "slice") },
+			"matchNegativeIndex":  func(v *mon.Violation) bool { return seq(v) && !has(v, "slice") && has(v, "negnth") },
+			"matchTrailingFilter": func(v *mon.Violation) bool { return seq(v) && !has(v, "slice") && !has(v, "negnth") && has(v, "filter") },
 		},
 		Floors: func(tier string, cover map[string]int64, evals int64) []string {
 			var out []string
@@ -52,6 +54,26 @@ func init() {
 			return out
 		},
 	})
+}
+
+// seq: the violation is about the delivered callback sequence as a whole.
+func seq(v *mon.Violation) bool { return v.Kind == "wrong-callbacks" || v.Kind == "wrong-order" }
+
+// limited: the target uses a fragment the streaming matcher documents or shows limits for.
+func limited(t jpref.Path) bool {
+	for _, f := range t {
+		if f.Kind == "slice" || f.Kind == "filter" || f.Kind == "nth" && f.N < 0 {
+			return true
+		}
+		if f.Kind == "union" {
+			for _, u := range f.Union {
+				if n, ok := u.(int); ok && n < 0 {
+					return true
+				}
+			}
+		}
+	}
+	return false
 }
 
 // has reports whether the violation's targets use a fragment kind.
@@ -236,6 +258,25 @@ func genTarget(g *jpspec.Gen, r *rand.Rand) jpref.Path {
 	return p
 }
 
+// missingPlain returns the first of the hits that is neither delivered nor inside a delivered element.
+func missingPlain(hits, got []string) string {
+	for _, h := range hits {
+		hp := h[:strings.Index(h, "=")]
+		found := false
+		for _, g := range got {
+			gp := g[:strings.Index(g, "=")]
+			if g == h || gp != hp && strings.HasPrefix(hp, gp) && (hp[len(gp)] == '.' || hp[len(gp)] == '[') {
+				found = true
+				break
+			}
+		}
+		if !found {
+			return h
+		}
+	}
+	return ""
+}
+
 func kindsOf(ts []jpref.Path) []string {
 	set := map[string]bool{}
 	for _, t := range ts {
@@ -337,6 +378,61 @@ func run(c *mon.Ctx) {
 			c.Sample(map[string]any{"document": clip(doc), "targets": tstr, "expected_callbacks": want})
 		}
 		class := strings.Join(kinds, "+")
+		// the hits of the targets without slice, negative index or filter fragments, when the target set also
+		// has such targets: those hits must be delivered whatever the limited targets do (or lie inside a
+		// delivered element)
+		var plainHits []string
+		nLimited := 0
+		for _, sp := range specs {
+			if limited(sp) {
+				nLimited++
+			}
+		}
+		if nLimited > 0 && nLimited < len(specs) {
+			psel := map[string]jpref.Res{}
+			for _, sp := range specs {
+				if !limited(sp) {
+					for _, l := range jpref.Eval(sp, pd, jpref.Res{Loc: []any{}, V: pd}) {
+						psel[locKey(l.Loc)] = l
+					}
+				}
+			}
+			// F-C17-filter: the matcher collects every element the part of a target before its trailing filter
+			// matches, to run the filter on it; hits of other targets at or inside such an element go the way
+			// of that element
+			collected := map[string]bool{}
+			for _, sp := range specs {
+				if n := len(sp); n > 0 && sp[n-1].Kind == "filter" {
+					pre := append(jpref.Path{}, sp[:n-1]...)
+					for i, f := range pre {
+						if f.Kind == "slice" { // F-C17-slice: a slice matches every index while streaming
+							pre[i] = jpspec.Wild()
+						}
+					}
+					for _, l := range jpref.Eval(pre, pd, jpref.Res{Loc: []any{}, V: pd}) {
+						collected[locKey(l.Loc)] = true
+					}
+				}
+			}
+			for k, l := range psel {
+				in := false
+				for o := range psel {
+					if o != k && (strings.HasPrefix(k, o+"/") || o == "" && k != "") {
+						in = true
+					}
+				}
+				for o := range collected {
+					if o == k || strings.HasPrefix(k, o+"/") || o == "" {
+						in = true
+					}
+				}
+				if !in {
+					plainHits = append(plainHits, locPath(l.Loc)+"="+treegen.Show(l.V))
+				}
+			}
+			sort.Strings(plainHits)
+			c.Cover("mixed-limited-and-plain-targets")
+		}
 		run1 := func(entry string, f func(cb func(p jp.Expr, v any)) error, extra map[string]any) {
 			var got []string
 			var err error
@@ -360,6 +456,8 @@ func run(c *mon.Ctx) {
 				c.Violation(entry, "panic", class, cs2, "callbacks", pn.String())
 			case err != nil:
 				c.Violation(entry, "error-on-valid-document", class, cs2, "callbacks "+clip(fmt.Sprint(want)), err.Error())
+			case fmt.Sprint(got) != fmt.Sprint(want) && missingPlain(plainHits, got) != "":
+				c.Violation(entry, "hit-of-plain-target-missing", class, cs2, missingPlain(plainHits, got)+" delivered (or an element containing it)", clip(fmt.Sprint(got)))
 			case fmt.Sprint(got) != fmt.Sprint(want):
 				kind := "wrong-callbacks"
 				if len(got) == len(want) {
@@ -377,7 +475,9 @@ func run(c *mon.Ctx) {
 		run1("oj.MatchString", func(cb func(jp.Expr, any)) error { return oj.MatchString(doc, cb, targets...) }, nil)
 		run1("sen.Match", func(cb func(jp.Expr, any)) error { return sen.Match([]byte(doc), cb, targets...) }, nil)
 		run1("sen.MatchString", func(cb func(jp.Expr, any)) error { return sen.MatchString(doc, cb, targets...) }, nil)
-		plans := []jsongen.Plan{jsongen.Whole, jsongen.Fixed(1), jsongen.Fixed(2), jsongen.Fixed(3), jsongen.Fixed(7)}
+		plans := []jsongen.Plan{jsongen.Whole, jsongen.Fixed(1), jsongen.Fixed(2), jsongen.Fixed(3), jsongen.Fixed(7),
+			// readers that hand over their last bytes together with io.EOF
+			{Name: "fixed5+eofdata", Sizes: []int{5}, EOFWithData: true, ErrAt: -1}, {Name: "whole+eofdata", EOFWithData: true, ErrAt: -1}}
 		if len(doc) <= 200 && (i%4 == 0 || c.Thorough()) {
 			for at := 1; at < len(doc); at++ {
 				plans = append(plans, jsongen.Split(at))
